@@ -113,6 +113,25 @@ class LifeRun:
         self.exit_exc = "pending"
         for p in self.patches or []:
             p.start()
+        if scen.get("prior_session"):
+            # the same Gateway object was already used for a complete session (reconnect loop)
+            async def prior():
+                async with self.gateway:
+                    await asyncio.sleep(0)
+            t0 = self.loop.create_task(prior(), name="main")
+            guard = 0
+            while not t0.done() and guard < 200:
+                guard += 1
+                self.loop.settle()
+                for j in self.loop.pending_jobs():
+                    self.loop.run_job(j)
+                    self.loop.deliver_job(j)
+            self.loop.settle()
+            if t0.done() and not t0.cancelled() and t0.exception() is not None:
+                self.prior_error = type(t0.exception()).__name__
+            if scen["transport"] == "fake":
+                self.transport.connected = 0
+                self.transport.disconnected = 0
         self.main = self.loop.create_task(self._main(), name="main")
         self.loop.settle()
         # loading happens before any concurrency exists (no saver yet): its file jobs complete at once
@@ -364,6 +383,8 @@ def scenarios(tier: str) -> list[dict]:
     out.append(dict(base, transport="fake", connect_fail=False, disconnect_fail=True, finish="raise"))
     out.append(dict(base, transport="fake", connect_fail=True, disconnect_fail=False, finish="ok"))
     out.append(dict(base, transport="fake", connect_fail=False, disconnect_fail=False, finish="ok", file="missing"))
+    out.append(dict(base, transport="fake", connect_fail=False, disconnect_fail=False, finish="ok", prior_session=True, max_ticks=2))
+    out.append(dict(base, transport="fake", connect_fail=False, disconnect_fail=False, finish="raise", prior_session=True, max_ticks=2, max_run_only=0))
     for kind in ("tcp", "serial", "mqtt"):
         out.append(dict(base, transport=kind, connect_fail=False, disconnect_fail=False, finish="ok", max_run_only=0))
         out.append(dict(base, transport=kind, connect_fail=True, disconnect_fail=False, finish="ok", max_run_only=0))
